@@ -17,6 +17,7 @@ Monitors
 """
 
 import collections
+import os
 import itertools
 
 import numpy
@@ -327,11 +328,170 @@ def enumerate_walks(ersatz, seq_idx, A, rec, cls, params, cap):
 	return walks, len(outputs), complete
 
 
+WALK_SIGNATURE = ["n_shuffles", "n_chars", "idxs", "next_idxs",
+	"next_idxs_counts", "counters", "shuffled_sequences", "random_state"]
+
+
+def walk_hook_applicable(ersatz):
+	"""The precise monitor above reads the kernel's own counters and therefore
+	depends on the private kernel `_fast_shuffle(...)` having the arguments it
+	was written for."""
+	import inspect
+	if os.environ.get("VERIF_C02_GENERIC_WALK") == "1":
+		return False          # exercise the fallback on the current kernel
+	f = getattr(ersatz, "_fast_shuffle", None)
+	py = getattr(f, "py_func", None)
+	if py is None or not hasattr(ersatz, "_dinucleotide_shuffle"):
+		return False
+	try:
+		return list(inspect.signature(py).parameters) == WALK_SIGNATURE
+	except (TypeError, ValueError):
+		return False
+
+
+class Unenumerable(Exception):
+	pass
+
+
+class ChoiceTree:
+	"""Replay-based exhaustive exploration of the random choices a run makes:
+	choose(n) returns an index in range(n); successive runs walk the tree of
+	choices depth first (stateless model checking)."""
+
+	def __init__(self):
+		self.stack = []
+		self.pos = 0
+
+	def start(self):
+		self.pos = 0
+
+	def choose(self, n):
+		n = int(n)
+		if n <= 1:
+			return 0
+		if self.pos < len(self.stack):
+			c = self.stack[self.pos][0]
+		else:
+			self.stack.append([0, n])
+			c = 0
+		self.pos += 1
+		return c
+
+	def advance(self):
+		"""-> False when every leaf has been visited."""
+		del self.stack[self.pos:]
+		while self.stack and self.stack[-1][0] == self.stack[-1][1] - 1:
+			self.stack.pop()
+		if not self.stack:
+			return False
+		self.stack[-1][0] += 1
+		return True
+
+
+def enumerate_walks_generic(ersatz, seq_idx, A, rec, cls, params, cap):
+	"""Implementation-independent variant: every compiled function of the
+	module is replaced by its Python original, numpy's random primitives by
+	an enumerating source, and the PUBLIC dinucleotide_shuffle is run for
+	every outcome of those primitives; only what it returns is judged."""
+	import math
+	tree = ChoiceTree()
+	perms = {}
+
+	def nth_perm(n, k):
+		if n not in perms:
+			perms[n] = list(itertools.permutations(range(n)))
+		return perms[n][k]
+
+	def permutation(x):
+		if isinstance(x, (int, numpy.integer)):
+			n = int(x)
+			if n > 7:
+				raise Unenumerable("permutation of %d" % n)
+			return numpy.array(nth_perm(n, tree.choose(math.factorial(n))),
+				dtype=numpy.int64)
+		a = numpy.array(x)
+		if len(a) > 7:
+			raise Unenumerable("permutation of %d" % len(a))
+		return a[list(nth_perm(len(a), tree.choose(math.factorial(len(a)))))]
+
+	def shuffle(a):
+		n = len(a)
+		if n > 7:
+			raise Unenumerable("shuffle of %d" % n)
+		p = list(nth_perm(n, tree.choose(math.factorial(n))))
+		a[:] = numpy.array(a)[p]
+
+	def randint(low, high=None, size=None):
+		if size is not None:
+			raise Unenumerable("randint with size")
+		if high is None:
+			low, high = 0, low
+		return int(low) + tree.choose(int(high) - int(low))
+
+	def unsupported(*a, **k):
+		raise Unenumerable("continuous random primitive")
+
+	names = {"permutation": permutation, "shuffle": shuffle,
+		"randint": randint, "seed": lambda *a, **k: None,
+		"random": unsupported, "rand": unsupported, "choice": unsupported,
+		"random_sample": unsupported, "uniform": unsupported}
+	saved_np = {k: getattr(numpy.random, k) for k in names}
+	saved_jit = {k: v for k, v in vars(ersatz).items() if hasattr(v,
+		"py_func")}
+	X = to_ohe(seq_idx[None], A, torch.int8)
+	outputs = set()
+	walks = 0
+	complete = True
+	try:
+		for k, f in names.items():
+			setattr(numpy.random, k, f)
+		for k, v in saved_jit.items():
+			setattr(ersatz, k, v.py_func)
+		while True:
+			tree.start()
+			st, val = gen.call(ersatz.dinucleotide_shuffle, X, n=1,
+				random_state=0)
+			walks += 1
+			rec.count("walks_enumerated")
+			rec.count("walks_enumerated_generic")
+			if st == "raise" and isinstance(val, Unenumerable):
+				complete = False
+				break
+			if st == "ok":
+				d = check_shuffle_output("di", seq_idx, val[0], 0, len(
+					seq_idx), A)
+				if d is not None:
+					d.update(sequence=strs(seq_idx[None], A)[0],
+						choices=[c for c, _ in tree.stack])
+					rec.violation(cls, params, d, mech="C02/walk-stranded"
+						if "one-hot" in d["what"] else "C02/composition")
+					return walks, len(outputs), complete
+				outputs.add(val.numpy().tobytes())
+			if walks >= cap:
+				complete = False
+				break
+			if not tree.advance():
+				break
+	finally:
+		for k, f in saved_np.items():
+			setattr(numpy.random, k, f)
+		for k, v in saved_jit.items():
+			setattr(ersatz, k, v)
+	return walks, len(outputs), complete
+
+
 def case_walk(cls, params, rec):
 	from tangermeme import ersatz
 	A = params["A"]
 	al = alpha(A)
 	idx = numpy.array([al.index(c) for c in params["seq"]], dtype=numpy.int64)
+	if not walk_hook_applicable(ersatz):
+		rec.count("walk_hook_not_applicable")
+		walks, distinct, complete = enumerate_walks_generic(ersatz, idx, A,
+			rec, cls, params, params.get("cap", 5040))
+		rec.maxv("max_distinct_outputs_of_one_sequence", distinct)
+		rec.maxv("max_walks_of_one_sequence", walks)
+		return walks, complete
 	walks, distinct, complete = enumerate_walks(ersatz, idx, A, rec, cls,
 		params, params.get("cap", 5040))
 	rec.maxv("max_distinct_outputs_of_one_sequence", distinct)
